@@ -56,6 +56,95 @@ def interface(reg, name, params, kind, a=None, c=None, f=None, extra_mod=(), ext
                      serves=['C01', 'C02', 'C07', 'C08'], note='interface contract (behavioural subtyping): assumed at calls inside Coder'))
 
 
+
+class BitmapSpec(object):
+    """contract text of CoderState.build_bitmapped_descriptors, parameterised by the name of the state object (so that the three
+    define_bitmap contracts can state the same facts about `state`)"""
+
+    def __init__(self, obj):
+        self.obj = obj
+        self.BR, self.BD = '%s.back_referenced_descriptors' % obj, '%s.bitmapped_descriptors' % obj
+        self.DD, self.BND = '%s.decoded_descriptors' % obj, '%s.back_reference_boundary' % obj
+        self.CUR = '%s.next_bitmapped_descriptor' % obj
+
+    def br_facts(self, lst, lo):
+        """entries of the back-reference list: (flat index, the element descriptor at that index), exact type ElementDescriptor,
+        in increasing index order, all above `lo` and below the boundary"""
+        return ['forall(k, 0, len(%s), %s < select(%s, k)[0] and select(%s, k)[0] < %s and select(%s, k)[1] is select(%s, select(%s, k)[0]) '
+                'and typeis(select(%s, k)[1], "ElementDescriptor"))' % (lst, lo, lst, lst, self.BND, lst, self.DD, lst, lst),
+                'forall(k, 0, len(%s) - 1, select(%s, k)[0] < select(%s, k + 1)[0])' % (lst, lst, lst)]
+
+    def br_complete(self, lst, lo):
+        return ('forall(i, 0, %s, implies(i > %s and typeis(select(%s, i), "ElementDescriptor"), exists(k, 0, len(%s), select(%s, k)[0] == i)))'
+                % (self.BND, lo, self.DD, lst, lst))
+
+    def wf(self):
+        """state facts every operation keeps: the boundary lies inside the descriptor list; an existing back-reference list is one this
+        function built (same facts)"""
+        f = self.br_facts(self.BR, '-1')
+        return ['%s != None' % self.DD, '0 <= %s' % self.BND, '%s <= len(%s)' % (self.BND, self.DD),
+                'implies(%s != None, %s and %s)' % (self.BR, f[0], f[1])]
+
+    def requires(self, bitmap):
+        return self.wf() + ['%s != None' % bitmap]
+
+    def modifies(self):
+        return [self.BR, self.BD, self.CUR]
+
+    def had(self):
+        return 'old(%s != None and len(%s) != 0)' % (self.BR, self.BR)
+
+    def mismatch(self, bitmap):
+        return 'old(%s != None and len(%s) != 0 and len(%s) != len(%s))' % (self.BR, self.BR, self.BR, bitmap)
+
+    def ensures(self, bitmap):
+        BR, BD = self.BR, self.BD
+        idxm, invm = 'lc_map(%s, "lc_idx")' % BD, 'lc_map(%s, "lc_inv")' % BD
+        return (['len(%s) == len(%s)' % (BR, bitmap)] + self.br_facts(BR, '-1') +
+                # existing back references are reused until cancelled; otherwise they are the LAST len(bitmap) element descriptors
+                # before the boundary: every element descriptor between the first one selected and the boundary is selected
+                ['implies(%s, %s is old(%s) and same_list(%s))' % (self.had(), BR, BR, BR),
+                 'implies(not %s, fresh(%s))' % (self.had(), BR),
+                 'implies(not %s and len(%s) > 0, %s)' % (self.had(), BR, self.br_complete(BR, 'select(%s, 0)[0]' % BR)),
+                 # the selection: exactly the back references whose bit is 0, in order (index maps of the comprehension)
+                 '%s != None' % BD, 'fresh(%s)' % BD,
+                 'forall(k, 0, len(%s), 0 <= at(%s, k) and at(%s, k) < len(%s) and Eq(select(%s, at(%s, k)), 0) and '
+                 'select(%s, k) == select(%s, at(%s, k)))' % (BD, idxm, idxm, BR, bitmap, idxm, BD, BR, idxm),
+                 'forall(k, 0, len(%s) - 1, at(%s, k) < at(%s, k + 1))' % (BD, idxm, idxm),
+                 'forall(j, 0, len(%s), implies(Eq(select(%s, j), 0), 0 <= at(%s, j) and at(%s, j) < len(%s) and at(%s, at(%s, j)) == j))'
+                 % (BR, bitmap, invm, invm, BD, idxm, invm),
+                 # the cursor restarts at the first zero bit
+                 'fresh(%s)' % self.CUR, '%s.lst is %s' % (self.CUR, BD), '%s.pos == 0' % self.CUR])
+
+
+def define_bitmap_requires():
+    return ['state != None', 'state.decoded_values_all_subsets != None', 'len(state.decoded_values_all_subsets) >= 1',
+            'implies(not state.is_compressed, state.decoded_values != None)'] + BitmapSpec('state').wf()
+
+
+def define_bitmap_modifies():
+    return ['state.bitmap'] + BitmapSpec('state').modifies()
+
+
+def define_bitmap_ensures(source, reuse='reuse', result=True):
+    """source: (list expression, first index) of the values that form the bitmap, None for the interface (which leaves that to the
+    overrides); result=False: the caller drops the returned list (process_bitmap_definition) -- then the bitmap is only known
+    through state.bitmap when it is kept for reuse"""
+    bb = BitmapSpec('state')
+    out = []
+    if result:
+        out += ['result != None', 'fresh(result)', 'implies(%s, state.bitmap is result)' % reuse,
+                'implies(not %s, state.bitmap is old(state.bitmap))' % reuse]
+        out += bb.ensures('result')
+        if source is not None:
+            lst, first, n = source
+            out += ['len(result) == %s' % n, 'forall(j, 0, len(result), val_eq(select(result, j), select(%s, %s + j)))' % (lst, first)]
+    else:
+        out += ['implies(%s, state.bitmap != None and fresh(state.bitmap))' % reuse, 'implies(not %s, state.bitmap is old(state.bitmap))' % reuse,
+                'implies(%s, %s)' % (reuse, ' and '.join('(%s)' % x for x in bb.ensures('state.bitmap')))]
+    return out
+
+
 def register(reg):
     add = reg.add
     interface(reg, 'process_numeric', {'nbits': INT, 'scale_powered': FLOAT, 'refval': INT}, P_NUMERIC, a='nbits', c='refval', f='scale_powered')
@@ -137,6 +226,93 @@ def register(reg):
                           'forall(k, 0, len(self.decoded_descriptors), haskey(self.bitmap_links, k) == old(haskey(self.bitmap_links, k)) '
                           'and dval(self.bitmap_links, k) == old(dval(self.bitmap_links, k)))'],
                  serves=['C07'], note='the next value is linked to the element of the next zero bit; earlier links untouched'))
+
+    # ------------------------------------------------------------------------------------------------------------
+    # C07: "the k-th such value belongs to the k-th zero bit, bits being matched to the N element descriptors that precede the operator"
+    bb = BitmapSpec('self')
+    BR, BD, DD, BND = bb.BR, bb.BD, bb.DD, bb.BND
+    add(Contract(M + 'CoderState.build_bitmapped_descriptors', {'self': S, 'bitmap': ListT(VAL)},
+                 requires=bb.requires('bitmap'),
+                 modifies=bb.modifies(), allocates=['self.next_bitmapped_descriptor.lst', 'self.next_bitmapped_descriptor.pos'],
+                 loops={0: Loop(invariants=['%s != None' % BR, 'fresh(%s)' % BR, '-1 <= _i0', '_i0 <= %s - 1' % BND,
+                                            'len(%s) == 0 or len(%s) != len(bitmap)' % (BR, BR),
+                                            '%s is entry(%s)' % (BR, BR)] + bb.br_facts(BR, '_i0') + [bb.br_complete(BR, '_i0')],
+                                modifies=['list(%s)' % BR], locals={'descriptor': DESC, 'idx': INT})},
+                 ensures=bb.ensures('bitmap'),
+                 raises={'PyBufrKitError': None},
+                 must_raise=[('PyBufrKitError', bb.mismatch('bitmap'))],
+                 serves=['C07', 'C06'],
+                 note='back references = the last N element descriptors (exact type) before the boundary, reused until cancelled; '
+                      'selection = those whose bit is 0, in order; a bitmap that does not match its back references is refused'))
+
+    # Coder.define_bitmap: the interface the walker uses (assumed at the call in process_bitmap_definition); Decoder.define_bitmap and
+    # Encoder.define_bitmap carry the SAME postcondition text (contracts/decoder.py, contracts/encoder.py) and are verified against it
+    add(Contract(M + 'Coder.define_bitmap', {'self': CD, 'state': S, 'reuse': BOOL}, returns=ListT(VAL), trusted=True,
+                 requires=define_bitmap_requires(), modifies=define_bitmap_modifies(), ensures=define_bitmap_ensures(None),
+                 allocates=['state.next_bitmapped_descriptor.lst', 'state.next_bitmapped_descriptor.pos'],
+                 raises={'PyBufrKitError': None}, serves=['C07'],
+                 note='interface contract: the bitmap is a fresh list, the back references and the zero-bit selection are rebuilt from it; '
+                      'which values form the bitmap is stated by the two overrides (last n_031031 values)'))
+
+    # the bitmap definition automaton (C07): INDICATOR -> (236000: for reuse | 237000: recall, done | other: not for reuse) -> WAITING ->
+    # COUNTING (one count per 031031) -> the first other descriptor defines the bitmap from the counted values
+    BST, REUSE, N31 = 'state.bitmap_definition_state', 'state.most_recent_bitmap_is_for_reuse', 'state.n_031031'
+    AUTO = ['bitmap_definition_state', 'most_recent_bitmap_is_for_reuse', 'n_031031']
+    KEEP_BITMAP = ['state.bitmap is old(state.bitmap)', 'state.back_referenced_descriptors is old(state.back_referenced_descriptors)',
+                   'state.bitmapped_descriptors is old(state.bitmapped_descriptors)',
+                   'state.next_bitmapped_descriptor is old(state.next_bitmapped_descriptor)']
+
+    def auto(*fields):
+        return 'unchanged(state, %s)' % ', '.join('"%s"' % f for f in fields)
+    add(Contract(M + 'Coder.process_bitmap_definition', {'self': CD, 'state': S, 'bit_operator': BO, 'descriptor': DESC},
+                 requires=['descriptor != None'] + define_bitmap_requires(),
+                 modifies=['state.bitmap_definition_state', 'state.most_recent_bitmap_is_for_reuse', 'state.n_031031'] + define_bitmap_modifies(),
+                 cases=[
+                     ('indicator.236000', '%s == 1 and descriptor.id == 236000' % BST,
+                      ['%s == 4' % BST, '%s == True' % REUSE, '%s == 0' % N31, auto(*AUTO)] + KEEP_BITMAP),
+                     ('indicator.237000', '%s == 1 and descriptor.id == 237000' % BST,
+                      ['%s == 0' % BST, auto('bitmap_definition_state')] + KEEP_BITMAP),
+                     ('indicator.other', '%s == 1 and descriptor.id != 236000 and descriptor.id != 237000' % BST,
+                      ['%s == 4' % BST, '%s == False' % REUSE, '%s == 0' % N31, auto(*AUTO)] + KEEP_BITMAP),
+                     ('waiting.031031', '%s == 4 and descriptor.id == 31031' % BST,
+                      ['%s == 5' % BST, '%s == old(%s) + 1' % (N31, N31), auto('bitmap_definition_state', 'n_031031')] + KEEP_BITMAP),
+                     ('waiting.other', '%s == 4 and descriptor.id != 31031' % BST, ['unchanged(state)'] + KEEP_BITMAP),
+                     ('counting.031031', '%s == 5 and descriptor.id == 31031' % BST,
+                      ['%s == old(%s) + 1' % (N31, N31), auto('n_031031')] + KEEP_BITMAP),
+                     # the first descriptor after the counted bits defines the bitmap (for reuse iff 236000 introduced it)
+                     ('counting.define', '%s == 5 and descriptor.id != 31031' % BST,
+                      ['%s == 0' % BST, '%s == old(%s)' % (N31, N31), '%s == old(%s)' % (REUSE, REUSE),
+                       'unchanged(state, "bitmap_definition_state", "bitmap", "back_referenced_descriptors", "bitmapped_descriptors", "next_bitmapped_descriptor")'] +
+                      define_bitmap_ensures(None, reuse='old(%s)' % REUSE, result=False)),
+                     ('idle', '%s != 1 and %s != 4 and %s != 5' % (BST, BST, BST), ['unchanged(state)'] + KEEP_BITMAP),
+                 ],
+                 raises={'PyBufrKitError': '%s == 5 and descriptor.id != 31031' % BST}, serves=['C07'],
+                 note='one case per (state, descriptor) cell of the bitmap definition automaton; every other register unchanged'))
+
+    # 203YYY in force: an element descriptor defines its new reference value (YYY bits, sign-magnitude); character elements are refused
+    add(Contract(M + 'Coder.process_define_new_refval', {'self': CD, 'state': S, 'bit_operator': BO, 'descriptor': ED},
+                 requires=['state.decoded_descriptors != None', 'descriptor != None'],
+                 modifies=PRIM_MOD + ['dict(state.new_refvals)'],
+                 ensures=['gh(state, "nprims") == %s + 1' % N0, earlier_calls_kept()] +
+                         call_is(N0, P_NEWREF, 'descriptor', a='old(state.nbits_of_new_refval)') + appended() +
+                         ['haskey(state.new_refvals, descriptor.id)', REGS_KEPT],
+                 raises={'PyBufrKitError': None, 'ValueError': None, 'AssertionError': None, 'IndexError': None, 'TypeError': None},
+                 must_raise=[('PyBufrKitError', 'descriptor.unit == "CCITT IA5"')],
+                 serves=['C01', 'C02'], note='new reference value of YYY bits for this element; a character element cannot have one'))
+    # 206YYY: the next descriptor, whatever it is, is skipped as YYY bits labelled S + its id; the register is cleared
+    SKD = 'asref(ghat(state, "pdesc", %s), "Descriptor")' % N0
+    add(Contract(M + 'Coder.process_skipped_local_descriptor', {'self': CD, 'state': S, 'bit_operator': BO, 'descriptor': DESC},
+                 requires=['state.decoded_descriptors != None', 'descriptor != None'],
+                 modifies=PRIM_MOD + ['state.nbits_of_skipped_local_descriptor'],
+                 ensures=['gh(state, "nprims") == %s + 1' % N0, earlier_calls_kept(),
+                          'ghat(state, "prim", %s) == %d' % (N0, P_CODEFLAG), 'ghat(state, "pa", %s) == old(state.nbits_of_skipped_local_descriptor)' % N0,
+                          'typeis(%s, "SkippedLocalDescriptor")' % SKD, 'fresh(%s)' % SKD, '%s.id == descriptor.id' % SKD,
+                          'asref(ghat(state, "pdesc", %s), "SkippedLocalDescriptor").nbits == old(state.nbits_of_skipped_local_descriptor)' % N0,
+                          'len(state.decoded_descriptors) == %s + 1' % L0, 'select(state.decoded_descriptors, %s) is %s' % (L0, SKD),
+                          'list_eq_upto(state.decoded_descriptors, %s)' % L0,
+                          'state.nbits_of_skipped_local_descriptor == 0', 'unchanged(state, "idx_value", "nbits_of_skipped_local_descriptor")'],
+                 raises={'PyBufrKitError': None, 'ValueError': None, 'AssertionError': None, 'IndexError': None, 'TypeError': None},
+                 serves=['C01', 'C02'], note='skipped local descriptor: an unsigned field of YYY bits labelled S..., then 206 is spent'))
 
     # ------------------------------------------------------------------------------------------------------------
     # operator descriptors (C01: "with the width, scale and reference changes of operators 201, 202, 203 and 207 in force")
